@@ -48,7 +48,8 @@ func c14gBody(kind int) (body []byte, contentType string) {
 
 // Harness_C14G_Rejected: mode 0: override header + URL query (n symbolic
 // bytes) with every body shape 0..7; mode 1: no URL query, the malformed
-// bodies 2 (no query part), 5 (no body part), 6 (unknown part type).
+// bodies 2 (no query part), 5 (no body part), 6 (unknown part type), 3 (not a
+// tunnel: plain JSON), 4 (nothing).
 func Harness_C14G_Rejected(mode, n int) {
 	m := &mockThings{item: &vt.Item{Name: "x"}}
 	f := &c14Filter{}
@@ -59,7 +60,9 @@ func Harness_C14G_Rejected(mode, n int) {
 		target += "?" + verif.String(n)
 		kind = verif.Choose(8)
 	} else {
-		kind = []int{2, 5, 6}[verif.Choose(3)]
+		// 2 no query part, 5 no body part, 6 unknown part type, 3 a body that is
+		// no tunnel at all (plain JSON), 4 no body and no content type
+		kind = []int{2, 5, 6, 3, 4}[verif.Choose(5)]
 	}
 	body, ct := c14gBody(kind)
 	headers := map[string]string{restli.MethodOverrideHeader: "PUT", restli.MethodHeader: "update"}
